@@ -24,7 +24,7 @@ FACT = {
     "spif_objpair_t": ("mk_pair()", "spif_objpair_del(v)", "none"),
     "spif_tok_t": ("spif_tok_new_from_ptr((spif_charptr_t) \"a b\")", "spif_tok_del(v)", "none"),
     "spif_url_t": ("spif_url_new_from_ptr((spif_charptr_t) \"http://h:8/p\")", "spif_url_del(v)", "str"),
-    "spif_regexp_t": ("spif_regexp_new_from_ptr((spif_charptr_t) \"a\")", "spif_regexp_del(v)", "str"),
+    "spif_regexp_t": ("spif_regexp_new_from_ptr((spif_charptr_t) \"a*\")", "spif_regexp_del(v)", "str"),
     "spif_socket_t": ("spif_socket_new()", "spif_socket_del(v)", "none"),
     "spif_array_t": ("(spif_array_t) mk_list(0)", "SPIF_OBJ_DEL(SPIF_OBJ(v))", "list"),
     "spif_linked_list_t": ("(spif_linked_list_t) mk_list(1)", "SPIF_OBJ_DEL(SPIF_OBJ(v))", "list"),
